@@ -185,7 +185,7 @@ pub fn main(args: &[String]) {
                 })) { Some(Ok(o)) => o, Some(Err(_)) => continue,
                 None => { viol.push(Json::obj(vec![("class", Json::s("emit-panics-with-code-transform")), ("props", Json::s("C11 C02")), ("what", Json::s(format!("{}: parse/emit panics with preserve_code_transform (variant {})", name, variant))), ("input", Json::s(crate::c03::hex(wasm)))])); continue; } };
             if variant == 2 && amod::validate(&o.out, feats).is_err() { continue; }
-            if let Err(e) = amod::validate(&o.out, feats) { if variant != 1 || !e.contains("undeclared function reference") { viol.push(Json::obj(vec![("class", Json::s("output-invalid-with-code-transform")), ("props", Json::s("C02")), ("what", Json::s(format!("{}: output does not validate (variant {}): {}", name, variant, e))), ("input", Json::s(crate::c03::hex(wasm)))])); } }   // a marker landed in a place where it breaks typing (e.g. after a terminator of a typed block): not a well-formed edit
+            if let Err(e) = amod::validate(&o.out, feats) { if true { viol.push(Json::obj(vec![("class", Json::s("output-invalid-with-code-transform")), ("props", Json::s("C02")), ("what", Json::s(format!("{}: output does not validate (variant {}): {}", name, variant, e))), ("input", Json::s(crate::c03::hex(wasm)))])); } }   // a marker landed in a place where it breaks typing (e.g. after a terminator of a typed block): not a well-formed edit
             let vname = format!("{}{}", name, ["", " (after gc)", " (markers inserted)"][variant as usize]);
             oracle(&vname, wasm, &o, &mut viol);
             if variant == 1 { n_gc += 1; } if variant == 2 { n_edit += 1; }
